@@ -53,6 +53,12 @@ def main(argv: list[str]) -> int:
     for sid in ids:
         d = os.path.join(SEEDED, sid)
         meta = json.load(open(os.path.join(d, "meta.json")))
+        if meta.get("obsolete"):
+            # a later repair of /repo made the seeded change harmless (its demonstration
+            # passes with the patch): kept for the record, not evaluated
+            summary.append((sid, "OBSOLETE"))
+            print(sid, "OBSOLETE:", meta["obsolete"][:100], flush=True)
+            continue
         wt = tempfile.mkdtemp(prefix=f"ptverif-seed-{sid}-", dir="/var/tmp")
         os.rmdir(wt)
         r = sh(f"git -C {REPO} worktree add --detach {wt} HEAD")
